@@ -1,6 +1,7 @@
 package main
 
 import (
+	"go/types"
 	"fmt"
 	"go/constant"
 	"go/token"
@@ -25,7 +26,7 @@ func propC12(c *Ctx, r *Report) {
 	// immutability
 	cat := buildSQLCat(c)
 	r.rule("C12/rates-immutable", 3, "pn_rate is insert-only, keyed by (height, token), written from one place")
-	ruleTableWriters(c, cat, r, "C12/rates-immutable", "pn_rate", []writerSpec{{"pegnet.(*Pegnet).insertRate", "INSERT", ""}}, true)
+	ruleTableWriters(c, cat, r, "C12/rates-immutable", "pn_rate", []writerSpec{{"pegnet.Pegnet.insertRate|pegnet.Pegnet.InsertRates", "INSERT", ""}}, true)
 	uniq := false
 	if t := cat.Tables["pn_rate"]; t != nil {
 		for _, u := range t.Uniques {
@@ -35,8 +36,14 @@ func propC12(c *Ctx, r *Report) {
 		}
 	}
 	r.check(uniq, "C12/rates-immutable", "pn_rate UNIQUE(height, token)", "-", "", "pn_rate has no unique key on (height, token): a height's rates could be inserted twice")
-	for _, spec := range []struct{ fn, caller string }{{"pegnet.Pegnet.insertRate", "pegnet.(*Pegnet).InsertRates"}, {"pegnet.Pegnet.InsertRates", "node.(*Pegnetd).SyncBlock"}} {
-		f := c.fn(spec.fn)
+	for _, spec := range []struct{ fn, caller string }{{"pegnet.Pegnet.insertRate", "pegnet.Pegnet.InsertRates"}, {"pegnet.Pegnet.InsertRates", "node.Pegnetd.SyncBlock"}} {
+		f := c.fnOpt(spec.fn)
+		if f == nil && spec.fn != "pegnet.Pegnet.InsertRates" {
+			continue // the private helper was inlined into InsertRates: the writers rule above covers it
+		}
+		if f == nil {
+			f = c.fn(spec.fn)
+		}
 		bad := ""
 		for _, s := range c.callSitesOf(f) {
 			if fname(s.Caller) != spec.caller {
@@ -54,28 +61,30 @@ func propC12(c *Ctx, r *Report) {
 	r.rule("C12/peg-phase", 4, "PEG rate by pricing phase")
 	irf := c.fn("pegnet.Pegnet.InsertRates")
 	for ph := int64(0); ph <= 3; ph++ {
-		sc := &Scenario{Params: map[string]AVal{"phase": cInt(ph)}, MaxDepth: 0, AllErrorsNil: true}
+		sc := &Scenario{Params: map[string]AVal{"type:pegnet.PEGPricingPhase": cInt(ph)}, MaxDepth: 0, AllErrorsNil: true}
 		t := newSCCP(c, sc).analyse(irf, nil)
 		r.Scen++
 		iss := t.Live("SelectIssuances")
 		errs := strings.Join(errorReturns(t.Root), "|")
 		zero := false
-		for _, lc := range t.CallsTo("math/big.(*Int).SetUint64") {
+		for _, lc := range t.CallsTo("math/big.Int.SetUint64") {
 			if v, ok := lc.Args[1].intVal(); ok && v == 0 && lc.Depth == 0 {
 				zero = true
 			}
 		}
 		pegInsert := false
-		for _, lc := range t.CallsTo("insertRate") {
-			if lc.Depth == 0 && sliceHas(lc.Instr.Common().Args[3], func(v ssa.Value) bool { return isCallTo(v, "String") }) {
+		tokens := rateInsertTokens(c, t)
+		for _, tok := range tokens {
+			if sliceHas(tok, func(v ssa.Value) bool { return isCallTo(v, "String") }) {
 				pegInsert = true
 			}
 		}
+		anyInsert := len(tokens) > 0
 		var want, got string
 		switch ph {
 		case 0:
 			want = "error, nothing inserted"
-			got = fmt.Sprintf("%s", map[bool]string{true: "error, nothing inserted", false: "returns " + errs + fmt.Sprintf(" insertRate live=%v", t.Live("insertRate"))}[errs == "err:fresh" && !t.Live("insertRate")])
+			got = fmt.Sprintf("%s", map[bool]string{true: "error, nothing inserted", false: "returns " + errs + fmt.Sprintf(" rate insert live=%v", anyInsert)}[errs == "err:fresh" && !anyInsert])
 		case 1:
 			want = "PEG=0 issuance-read=false insert=true"
 			got = fmt.Sprintf("PEG=%s issuance-read=%v insert=%v", map[bool]string{true: "0", false: "?"}[zero], iss, pegInsert)
@@ -122,10 +131,27 @@ func tokenPrefixed(f *ssa.Function, v ssa.Value) (bool, string) {
 func nameAgreement(c *Ctx, r *Report, irf *ssa.Function) {
 	rule := "C12/peg-phase"
 	var ins, look []ssa.Value
-	for _, ci := range findCalls(irf, "pegnet.(*Pegnet).insertRate") {
+	for _, ci := range findCalls(irf, "pegnet.Pegnet.insertRate") {
 		a := ci.Common().Args[3]
 		if !sliceHas(a, func(v ssa.Value) bool { return isCallTo(v, "String") }) {
 			ins = append(ins, a)
+		}
+	}
+	// the same statement issued by InsertRates itself: the token is the string-typed parameter
+	for _, ci := range callsOf(irf) {
+		switch shortCallee(ci.Common()) {
+		case "Exec", "ExecContext":
+			if cls, _ := recvClass(ci.Common()); cls == "" {
+				continue
+			}
+			vals, _ := sqlParamValues(ci.Common())
+			for _, a := range vals {
+				if b, ok := a.Type().Underlying().(*types.Basic); ok && b.Kind() == types.String {
+					if !sliceHas(a, func(v ssa.Value) bool { return isCallTo(v, "String") }) {
+						ins = append(ins, a)
+					}
+				}
+			}
 		}
 	}
 	for _, ci := range findCalls(irf, "fat2.StringToTicker") {
@@ -168,9 +194,8 @@ func bandTables(c *Ctx, r *Report, e *eraCtx) {
 			pos := pos
 			sprV := sym("spr")
 			sc := &Scenario{
-				Params: map[string]AVal{"oprWinners": nonNil, "sprWinners": nonNil},
-				Paths:  map[string]AVal{"sprWinners[].Value": sprV, "oprWinners[].Value": sym("opr")},
-				Lens:   map[string]AVal{"oprWinners": cInt(32), "sprWinners": cInt(32)},
+				// (oprWinners, sprWinners): two slices of 32 records whose Value fields are the symbols opr / spr
+				Params: map[string]AVal{"type:[]opr.AssetUint#0": sliceOfStructs(32, map[string]AVal{"Value": sym("opr")}), "type:[]opr.AssetUint#1": sliceOfStructs(32, map[string]AVal{"Value": sprV})},
 				Order: func(a, b AVal) (int, bool) {
 					// spr against the 100000 threshold
 					if a.K == ASym && a.Sym == "spr" && b.isConst() {
@@ -210,7 +235,7 @@ func bandTables(c *Ctx, r *Report, e *eraCtx) {
 				MaxDepth: 0,
 			}
 			if er.fn == gar {
-				sc.Params["height"] = hconst(er.h)
+				sc.Params["type:uint32"] = hconst(er.h)
 			}
 			t, s := acc.run(c, r, er.fn, sc)
 			_ = s
@@ -261,12 +286,12 @@ func bandTables(c *Ctx, r *Report, e *eraCtx) {
 				}
 				if hasAppend && hasZero {
 					zeroed = true
-					if appended != nil && !sliceHas(appended, func(v ssa.Value) bool { p, ok := v.(*ssa.Parameter); return ok && p.Name() == "sprWinners" }) {
+					if appended != nil && !sliceHas(appended, func(v ssa.Value) bool { p, ok := v.(*ssa.Parameter); return ok && ownParam(p, p.Parent()) == 2 }) {
 						bad = append(bad, pos+": the zero-rate entry is not the SPR winner's entry")
 					}
 				} else if hasAppend {
 					inBand = true
-					if appended != nil && !sliceHas(appended, func(v ssa.Value) bool { p, ok := v.(*ssa.Parameter); return ok && p.Name() == "oprWinners" }) {
+					if appended != nil && !sliceHas(appended, func(v ssa.Value) bool { p, ok := v.(*ssa.Parameter); return ok && ownParam(p, p.Parent()) == 1 }) {
 						bad = append(bad, pos+": the in-band rate is not taken from the OPR winner")
 					}
 				}
@@ -290,13 +315,19 @@ func bandTables(c *Ctx, r *Report, e *eraCtx) {
 		{gar, nonNil, nilVal, 32, 0, "oprWinners"}, {gar, nilVal, nonNil, 0, 32, "sprWinners"},
 		{gv0, nonNil, nilVal, 32, 0, "oprWinners"}, {gv0, nilVal, nonNil, 0, 32, "sprWinners"},
 	} {
-		sc := &Scenario{Params: map[string]AVal{"oprWinners": spec.opr, "sprWinners": spec.spr}, Lens: map[string]AVal{"oprWinners": cInt(spec.lo), "sprWinners": cInt(spec.ls)}, MaxDepth: 0}
+		mk := func(v AVal, n int64) AVal {
+			if v.isNil() {
+				return v
+			}
+			return sliceOfStructs(n, nil)
+		}
+		sc := &Scenario{Params: map[string]AVal{"type:[]opr.AssetUint#0": mk(spec.opr, spec.lo), "type:[]opr.AssetUint#1": mk(spec.spr, spec.ls)}, MaxDepth: 0}
 		t := newSCCP(c, sc).analyse(spec.fn, nil)
 		r.Scen++
 		var got []string
 		for rt := range t.Root.rets {
 			if t.Root.execB[rt.Block()] {
-				got = append(got, valuePath(rt.Results[0]))
+				got = append(got, map[int]string{1: "oprWinners", 2: "sprWinners"}[ownParam(resolveSpill(rt.Results[0]), spec.fn)])
 			}
 		}
 		sort.Strings(got)
@@ -325,7 +356,7 @@ func winnerTable(c *Ctx, r *Report, e *eraCtx, rule string) {
 		var bad []string
 		acc := newTableAcc()
 		for _, h := range e.reps {
-			sc := &Scenario{Params: map[string]AVal{"height": hconst(h)}, Calls: w.calls, Lens: w.lens, MaxDepth: 0, AllErrorsNil: true}
+			sc := &Scenario{Params: map[string]AVal{"type:uint32": hconst(h)}, Calls: w.calls, Lens: w.lens, MaxDepth: 0, AllErrorsNil: true}
 			t, _ := acc.run(c, r, sb, sc)
 			ir, ex := t.Live("InsertRates"), t.Live("ApplyTransactionBatchesInHolding")
 			wantEx := w.winners && e.a.txActive(h)
@@ -353,4 +384,32 @@ func winnerTable(c *Ctx, r *Report, e *eraCtx, rule string) {
 		r.check(len(bad) == 0, rule, w.name, c.pos(sb.Pos()), fmt.Sprintf("%d height classes", len(e.reps)), strings.Join(bad, "; "))
 	}
 
+}
+
+// rateInsertTokens: the token-name values of the live INSERTs into pn_rate of a trace, whether issued through the
+// private insertRate helper or directly.
+func rateInsertTokens(c *Ctx, t *Trace) []ssa.Value {
+	var out []ssa.Value
+	for _, lc := range t.Calls {
+		if lc.Depth != 0 {
+			continue
+		}
+		switch lc.Short {
+		case "insertRate":
+			if a := lc.Instr.Common().Args; len(a) > 3 {
+				out = append(out, a[3])
+			}
+		case "Exec", "ExecContext":
+			if stmtLabel(c, lc.Instr) != "INSERT pn_rate" {
+				continue
+			}
+			vals, _ := sqlParamValues(lc.Instr.Common())
+			for _, a := range vals {
+				if b, ok := a.Type().Underlying().(*types.Basic); ok && b.Kind() == types.String {
+					out = append(out, a)
+				}
+			}
+		}
+	}
+	return out
 }
